@@ -265,6 +265,7 @@ func init() {
 		errRulesFor(run, p, "primitives/sr25519")
 		arithmeticFoundations(c)
 		groupFoundations(c, true)
+		readFullRule(c)
 		transcriptFoundations(c)
 	}
 }
